@@ -282,3 +282,72 @@ theorem cache_of_stage (f : StatsFile) (lk : Lookup) (Q : List Gene) (m : Nat) (
   | ok c => exact ⟨c, rfl⟩
 
 end CTM.EndToEnd
+namespace CTM.EndToEnd
+open CTM CTM.LevelLoop CTM.OutBridge CTM.Election CTM.Numeric CTM.Compose
+open CTM.Markers CTM.StageFiles
+
+/-- the query row `x` (columns = the query's gene names `Q`, in ANY order) equals,
+gene NAME by gene name, the mean profile the statistics file holds for leaf `lf` -/
+def SameByName (f : StatsFile) (Q : List Gene) (x : List Rat) (lf : Leaf) : Prop :=
+  x.length = Q.length ∧
+  ∀ (q : Nat) (g : Gene), Q[q]? = some g → g ∈ f.colNames →
+    some (x.getD q 0) = meanByName f lf g
+
+/-- then, at every consulted node, the cell's profile on the node's genes IS
+the leaf's reference row (the `query` clause of `NodeGuard`) -/
+theorem nodeQuery_eq_refRow (f : StatsFile) (lk : Lookup) (Q : List Gene) (rp : RunParams)
+    (hf : FileOK f) (hn : f.colNames.Nodup) (p : PKey) (names : List Gene)
+    (hng : NodeGenes f lk Q rp p names) (x : List Rat) (lf : Leaf) (hl : lf ∈ leavesOf f.tree)
+    (hs : SameByName f Q x lf) :
+    nodeQuery (fileParams f lk Q rp) p x = refRow (fileParams f lk Q rp) p lf := by
+  apply List.ext_getElem?
+  intro j
+  by_cases hj : j < names.length
+  · obtain ⟨g, hg⟩ : ∃ g, names[j]? = some g := ⟨names[j], List.getElem?_eq_getElem hj⟩
+    obtain ⟨q, hq1, hq2⟩ := namesAt_getElem _ _ _ hng.query j g hg
+    obtain ⟨r, _, hr2⟩ := namesAt_getElem _ _ _ hng.reference j g hg
+    have hgc : g ∈ f.colNames := List.mem_of_getElem? hr2
+    rw [(refRow_by_name f lk Q rp hf hn p names hng lf hl j g hg).1, ← hs.2 q g hq2 hgc]
+    unfold nodeQuery
+    exact pick_getElem? _ _ j q hq1
+  · have h1 : (nodeQuery (fileParams f lk Q rp) p x).length = names.length := by
+      rw [nodeQuery, pick_length, hng.qlen]
+    have h2 : (refRow (fileParams f lk Q rp) p lf).length = names.length := by
+      rw [refRow, pick_length, hng.rlen]
+    rw [List.getElem?_eq_none (by omega), List.getElem?_eq_none (by omega)]
+
+/-- the part of C18's guard that is not implied by the files: at a node, for
+the cell `x` and the leaf `lf` — no raise; on every drawn subset the leaf's
+profile on the node's genes is not constant and no other reference row of the
+node is perfectly correlated with it; the correlation reported for `lf`'s row has
+signed square 1 -/
+structure SeparatedAt (P : ElectionParams) (p : Parent) (kl : List (Node × List Node))
+    (x : List Rat) (lf : Node) : Prop where
+  noRaise : NoRaise P p kl x
+  guard : ∀ s ∈ P.subsets p x, var (Numeric.pick s (refRow P p lf)) ≠ 0 ∧
+    ∀ m ∈ (nodeRows kl).1, m ≠ lf →
+      corrSsq (Numeric.pick s (refRow P p m)) (Numeric.pick s (refRow P p lf)) ≠ 1
+  corr : ∀ it j, (nodeRows kl).1[j]? = some lf →
+    P.corrOf p x it j * |P.corrOf p x it j| = 1
+
+/-- `SeparatedAt` at every parent with a choice that has `lf` among its rows -/
+def SeparationBelow (P : ElectionParams) (t : RawTree) (x : List Rat) (lf : Node) : Prop :=
+  ∀ p ∈ t.allParents, ∀ l ∈ t.hierarchy, ∀ (kids : List Node), t.children p = .ok kids →
+    2 ≤ kids.length → lf ∈ (nodeRows (kidsOf t l kids)).1 →
+    SeparatedAt P p (kidsOf t l kids) x lf
+
+/-- the guard of `centroid_maps_home_validated`, from the files: equality by
+gene name + separation -/
+theorem guardBelow_of_files (f : StatsFile) (lk : Lookup) (Q : List Gene) (rp : RunParams)
+    (hT : TreeWF f.tree) (hf : FileOK f) (hn : f.colNames.Nodup) (c : Cache)
+    (hc : cacheOf f lk Q rp.minMarkers = .ok c) (x : List Rat) (lf : Leaf)
+    (hl : lf ∈ leavesOf f.tree) (hs : SameByName f Q x lf)
+    (hsep : SeparationBelow (fileParams f lk Q rp) f.tree x lf) :
+    GuardBelow (fileParams f lk Q rp) f.tree x lf := by
+  intro p hp l hlh kids hk h2 hin
+  obtain ⟨h1, h3, h4⟩ := hsep p hp l hlh kids hk h2 hin
+  have hcons : Consulted f.tree p := ⟨kids, by simp [childrenOf, hk], by omega⟩
+  obtain ⟨names, hng⟩ := nodeGenes_of_cache f lk Q rp hT c hc p hp hcons
+  exact ⟨h1, nodeQuery_eq_refRow f lk Q rp hf hn p names hng x lf hl hs, h3, h4⟩
+
+end CTM.EndToEnd
